@@ -120,6 +120,16 @@ func Check(res *Result) []Violation {
 				add("C09", "not-prompt", fmt.Sprintf("s%d: the context is done but Wait does not return while jobs are still running; %s", si, msg))
 			}
 		}
+		// stuck with work left and fewer worker goroutines alive than the limit: the capacity went away
+		for i := 0; i < sim.NumScheds(); i++ {
+			tag := sim.CallerTagOfSched(i)
+			if tag < 0 || tag >= len(res.SR) || res.SR[tag].returned {
+				continue
+			}
+			if w, _, ok := sim.LiveOfSched(i); ok && w < res.SR[tag].limit && strings.Contains(msg, "(loop)") {
+				add("C03", "capacity-lost:workers-gone", fmt.Sprintf("s%d: the scheduler is stuck with jobs left and only %d of its %d worker goroutines alive; %s", tag, w, res.SR[tag].limit, msg))
+			}
+		}
 		for _, sr := range res.SR {
 			if sr.d.Barrier && !sr.returned {
 				add("C03", "capacity-lost", fmt.Sprintf("barrier of %d simultaneously running jobs never completed: fewer than %d jobs can run at once; %s", sr.limit, sr.limit, msg))
